@@ -61,6 +61,11 @@ pub const LAYOUT_3: [u16; 8] = [0, 1, 2, 0, 0, 1, 0, 0];
 pub const LAYOUT_1: [u16; 8] = [0, 0, 0, 1, 0, 0, 0, 0];
 pub const LAYOUT_0: [u16; 8] = [0; 8];
 
+/// (key, value) stored in slot i
+pub fn slot_of(m: &ReversePurgeItemHashMap<u64>, i: usize) -> (u64, u64) {
+    (m.keys[i].unwrap(), m.values[i])
+}
+
 /// map with the given (concrete) drift states; keys / homes / values symbolic and invariant-satisfying
 pub fn map_with_layout(layout: [u16; 8]) -> ReversePurgeItemHashMap<u64> {
     let mut keys: Vec<Option<u64>> = Vec::with_capacity(N);
